@@ -86,8 +86,8 @@ func c05SeqOnce(c *Ctx) {
 func c05Epoch(c *Ctx) {
 	p := c.P
 	rule := "C05.epoch"
-	c.Doc(rule, "bumpEpoch is called only from returnError and only under msg.hasSequence")
-	c.Floor(rule, 2)
+	c.Doc(rule, "bumpEpoch is called only from returnError and only under msg.hasSequence; wherever transactionManager.sequenceNumbers entries are reset to 0, producerEpoch is incremented on the same path")
+	c.Floor(rule, 3)
 	call := p.CallTo("transactionManager.bumpEpoch")
 	var callers []string
 	for _, f := range p.Fns {
@@ -97,6 +97,42 @@ func c05Epoch(c *Ctx) {
 	}
 	sort.Strings(callers)
 	c.Check(len(callers) == 1 && callers[0] == "asyncProducer.returnError", rule, nil, "single-caller", nil, "bumpEpoch called only by returnError", "bumpEpoch callers: "+strings.Join(callers, ",")+" (expected only returnError)", nil)
+	// an epoch is the unit within which (producer id, epoch, sequence) identifies a batch: the sequence counters
+	// are reset exactly when the epoch moves on.  A reset without an increment hands out pairs that were already
+	// used in the current epoch (the broker answers "duplicate", which the producer counts as success).
+	nReset := 0
+	for _, f := range p.Fns {
+		if f.Pkg != p.Sarama {
+			continue
+		}
+		reset := MapUpdateOn(FieldLoad("transactionManager.sequenceNumbers"))
+		isReset := func(it Item) bool {
+			mu, ok := it.In.(*ssa.MapUpdate)
+			return ok && reset(it) && ConstInt(0)(mu.Value)
+		}
+		inc := StoreTo(BinOpOf(token.ADD, FieldLoad("transactionManager.producerEpoch"), ConstInt(1)), "transactionManager.producerEpoch")
+		reg := WholeFn(f)
+		rs := Info(f).Find(isReset)
+		if len(rs) == 0 {
+			continue
+		}
+		nReset++
+		bad := false
+		var path []*ssa.BasicBlock
+		for _, r := range rs {
+			// reachable without a preceding increment, and no increment follows either
+			if it, _ := reg.Reach(IsItem(r), inc); !it.IsZero() {
+				if esc, pth := reg.From(r.After()).Escape(inc); esc {
+					bad, path = true, pth
+				}
+			}
+		}
+		c.Check(!bad, rule, f, "reset-only-with-bump", rs[0].Instr(), "the sequence counters are reset only together with an epoch increment",
+			"the sequence counters can be reset to 0 on a path that does not increment the producer epoch: sequence numbers already used in the current epoch are handed out again, the broker answers DuplicateSequenceNumber and a message that was never appended is reported successful", path)
+	}
+	if nReset == 0 {
+		c.Unresolved(rule, "reset of transactionManager.sequenceNumbers")
+	}
 	if fn := c.NeedFn(rule, "asyncProducer.returnError"); fn != nil {
 		reg := WholeFn(fn)
 		for _, s := range reg.Find(call) {
